@@ -137,7 +137,8 @@ def run(ctx, library=True):
         # so that this check stands on its own
         n_main, n_files = ctx.extra["states"], ctx.extra["transitions"]
         import c04
-        c04.run(ctx, dis=False)
+        import common as _common
+        _common.composed(ctx, "C04-library-kernels", lambda: c04.run(ctx, dis=False))
         ctx.extra["main_paths"], ctx.extra["corpus_files"] = n_main, n_files
         ctx.extra["explanation"] = ("main's MIR under arbitrary load outcomes; the built binary on a corpus, compared with the library; and C04's legs: every "
                                     "panic edge of the parser / loader / assembler / disassembler kernels asked for feasibility, the decoder by CBMC.")
